@@ -1,3 +1,7 @@
+import Harper.Driver.PosConv
+import Harper.Driver.Stats
+import Harper.Driver.NumberSuffix
+import Harper.Driver.Suggestion
 import Harper.Driver.Overlaps
 import Harper.Driver.Lex
 /-! Dispatch table of the model driver: first word of an op line → handler on the remaining words. -/
@@ -7,7 +11,26 @@ def handlers : List (String × (List String → String)) := [
   ("ro", handleRo),
   ("ri", handleRi),
   ("lex", handleLex),
-  ("f64", handleF64)
+  ("f64", handleF64),
+  ("apply", handleApply),
+  ("rebase", handleRebase),
+  ("tokspan", handleTokSpan),
+  ("fixall", handleFixAll),
+  ("substall", handleSubstAll),
+  ("sfx", handleSfx),
+  ("fromchars", handleFromChars),
+  ("tochars", handleToChars),
+  ("nsrule", handleNsRule),
+  ("esc", handleEsc),
+  ("unq", handleUnq),
+  ("lines", handleLines),
+  ("rdlog", handleRdlog),
+  ("wlog", handleWlog),
+  ("rlog", handleRlog),
+  ("sum", handleSum),
+  ("i2p", handleI2p), ("p2i", handleP2i), ("s2r", handleS2r), ("r2s", handleR2s),
+  ("edit", handleEdit), ("sel", handleSel), ("sapply", handleSpliceApply),
+  ("cdec", handleCdec), ("capply", handleCapply)
 ]
 
 def handle (line : String) : String :=
